@@ -55,3 +55,35 @@ def decode (bs : Bytes) : Except Err (DT × Nat) :=
   | _ => .error .decode
 
 end Model.Time
+
+namespace Model.Time
+open Dlms Spec.DateTime
+
+/-- `date_from_bytes` on 5 bytes: (year, month, day). -/
+def decodeDate (bs : Bytes) : Except Err (Nat × Nat × Nat) :=
+  match bs.map (·.toNat) with
+  | [y1, y0, mo, da, wd] =>
+    let year := if y1 * 256 + y0 == 0xFFFF then none else some (y1 * 256 + y0)
+    let month := optByte mo none
+    let day := optByte da none
+    let weekday := optByte wd none
+    if !(inRange 1 12 month && inRange 1 31 day && inRange 1 7 weekday) then .error .decode else
+    match year, month, day with
+    | some y, some m, some d =>
+      if !(1 ≤ y && y ≤ 9999 && d ≤ daysIn y m) then .error .decode else .ok (y, m, d)
+    | _, _, _ => .error .decode
+  | _ => .error .decode
+
+/-- `time_from_bytes` on 4 bytes: (hour, minute, second, microsecond). -/
+def decodeTime (bs : Bytes) : Except Err (Nat × Nat × Nat × Nat) :=
+  match bs.map (·.toNat) with
+  | [ho, mi, se, hu] =>
+    let hour := optByte ho (some 0)
+    let minute := optByte mi (some 0)
+    let second := optByte se (some 0)
+    let hundredths := optByte hu (some 0)
+    if !(inRange 0 23 hour && inRange 0 59 minute && inRange 0 59 second && inRange 0 99 hundredths) then .error .decode
+    else .ok (hour.getD 0, minute.getD 0, second.getD 0, hundredths.getD 0 * 10000)
+  | _ => .error .decode
+
+end Model.Time
